@@ -174,6 +174,8 @@ def build(tree, run, path=(), index=None):
         return build(c[i], run, path + (i + 1,), index)
     if k in ('new', 'same', 'fail'):
         s = Leaf(run, k, path)
+    elif k == 'smiss':
+        s = getattr(S, 'nope%s' % ''.join(str(i) for i in path))
     elif k == 'probe':
         s = Probe(run, path)
     elif k == 'read':
@@ -247,6 +249,7 @@ class Recorder:
         self.events = []
         self.fid = {}
         self.keep = []      # keeps scopes alive so ids are not reused
+        self.errors = {}
 
     def num(self, scope):
         m = scope.maps[0]
@@ -273,6 +276,7 @@ class Recorder:
                                 'mode': mode_name(m[MODE]), 'minmode': m[MIN_MODE] is not None})
         elif ev == 'error':
             self.events.append({'a': 'error', 'f': self.num(scope), 'cls': type(other).__name__})
+            self.errors[self.num(scope)] = other
         elif ev == 'chain':
             self.events.append({'a': 'chain', 'from': self.num(scope), 'to': self.num(other)})
 
